@@ -64,6 +64,8 @@ func (o vcOp) String() string {
 		return "close-and-reopen-DB"
 	case "intr":
 		return fmt.Sprintf("%s interrupted at its clock read #%d by a second client's %s", o.A, o.K, o.Y)
+	case "intr-out":
+		return fmt.Sprintf("%s with a second client's %s arriving while its first outbound request is in flight", o.A, o.Y)
 	}
 	return "?"
 }
@@ -96,6 +98,10 @@ func vcOps() []vcOp {
 		a, y := c.a, c.y
 		ops = append(ops, vcOp{Kind: "intr", A: &a, Y: &y, K: c.k})
 	}
+	for _, y := range []vcOp{del, add1} {
+		a, y := work, y
+		ops = append(ops, vcOp{Kind: "intr-out", A: &a, Y: &y})
+	}
 	return ops
 }
 
@@ -120,6 +126,12 @@ type vcWorld struct {
 	fired   map[string]int           // firings of the current incarnation
 	due     map[string]stdtime.Time  // due instant read from the job's TId before each work()
 	intr    *vcIntr
+	// outIntr: a second client's operation delivered while work()'s first outbound
+	// request is in flight - only when no Bolt write transaction of ours is open
+	// (a client arriving during one simply waits for it, i.e. runs after work())
+	outIntr   *vcIntr
+	outIntrAt int // len(fires) when it was delivered
+	inTx      bool
 }
 
 type vcIntr struct {
@@ -152,6 +164,11 @@ type vcRT struct{ w *vcWorld }
 func (rt vcRT) RoundTrip(req *http.Request) (*http.Response, error) {
 	aid := strings.TrimPrefix(req.URL.Path, "/")
 	rt.w.fires = append(rt.w.fires, vcFire{aid, rt.w.clock.Now()})
+	if in := rt.w.outIntr; in != nil && !in.done && !rt.w.inTx {
+		in.done = true
+		rt.w.outIntrAt = len(rt.w.fires)
+		in.sig, in.msg = rt.w.apply(in.y)
+	}
 	return &http.Response{StatusCode: 200, Body: io.NopCloser(strings.NewReader("ok")), Header: http.Header{}, Request: req}, nil
 }
 
@@ -261,6 +278,28 @@ func (w *vcWorld) apply(op vcOp) (sig, msg string) {
 		if sig != "" {
 			return sig, msg
 		}
+	case "intr-out":
+		if w.intr != nil || w.outIntr != nil {
+			return "", ""
+		}
+		w.outIntr = &vcIntr{y: *op.Y}
+		w.outIntrAt = -1
+		sig, msg := w.apply(*op.A)
+		in := w.outIntr
+		w.outIntr = nil
+		w.outIntrAt = -1
+		if in.sig != "" {
+			return in.sig, in.msg
+		}
+		if sig != "" {
+			return sig, msg
+		}
+		if in.done && in.y.Kind == "del" {
+			// the Delete returned while work() was still busy: the job must be gone
+			if _, err := w.cron.Get(in.y.Account, in.y.Id); err == nil {
+				return "deleted-job-restored-by-the-firing-pass", fmt.Sprintf("%s: Delete returned, yet the job is in the table again after the pass", op)
+			}
+		}
 	case "adv":
 		w.clock.Advance(op.D)
 	case "reopen":
@@ -278,18 +317,27 @@ func (w *vcWorld) apply(op vcOp) (sig, msg string) {
 			}
 		}
 		before := len(w.fires)
-		if err := w.cron.DB.Update(w.cron.work(op.Id)); err != nil {
+		pass := w.cron.work(op.Id)
+		if err := w.cron.DB.Update(func(tx *bolt.Tx) error {
+			w.inTx = true
+			defer func() { w.inTx = false }()
+			return pass(tx)
+		}); err != nil {
 			return "work-failed", fmt.Sprintf("%s: %v", op, err)
 		}
 		now := w.clock.Now()
 		seen := map[string]int{}
-		for _, f := range w.fires[before:] {
+		for i, f := range w.fires[before:] {
 			seen[f.aid]++
-			if w.deleted[f.aid] {
+			inFlight := w.outIntrAt >= 0 && before+i < w.outIntrAt // fired before the other client's call arrived
+			if w.deleted[f.aid] && !inFlight {
 				return "deleted-job-fired", fmt.Sprintf("job %s fired at T0+%v after it was deleted", f.aid, now.Sub(vcT0))
 			}
 			if d, ok := w.due[f.aid]; ok && now.Before(d) {
 				return "job-fired-before-its-due-time", fmt.Sprintf("job %s fired at T0+%v but its time-index key says it is due at T0+%v (work compares RFC3339Nano strings)", f.aid, now.Sub(vcT0), d.Sub(vcT0))
+			}
+			if inFlight {
+				continue // belongs to the incarnation the other client's call has just ended
 			}
 			w.fired[f.aid]++
 			if w.once[f.aid] && w.fired[f.aid] > 1 {
